@@ -451,21 +451,21 @@ def rule_ip(ck):
         rej_body = len(st.body) == 1 and isinstance(st.body[0], ast.Return) and q.is_const(st.body[0].value, False)
         if not rej_body:
             continue
-        for atom in q.split_disj(st.test):
-            a2 = atom
-            neg = False
-            while isinstance(a2, ast.UnaryOp) and isinstance(a2.op, ast.Not):
-                a2, neg = a2.operand, not neg
-            txt = q.unparse(atom)
-            if (neg and q.dotted(a2) == ip) or txt in ("%s == ''" % ip, "len(%s) == 0" % ip):
-                ck.ob("C43.ip", fi, atom, True, "early rejection of the empty string")
-            elif isinstance(a2, ast.Compare) and not neg and isinstance(a2.ops[0], ast.In) and isinstance(a2.left, ast.Constant) and a2.left.value == "\x00" and q.dotted(a2.comparators[0]) == ip:
-                ck.ob("C43.ip", fi, atom, True, "early rejection of strings containing NUL")
-            elif isinstance(a2, ast.Compare) and not neg and len(a2.ops) == 1 and q.is_call(a2.left, "len") and q.dotted(a2.left.args[0]) == ip and isinstance(a2.comparators[0], ast.Constant) and type(a2.comparators[0].value) is int and isinstance(a2.ops[0], (ast.Gt, ast.GtE)):
-                nmax = a2.comparators[0].value - (1 if isinstance(a2.ops[0], ast.GtE) else 0)
-                ck.ob("C43.ip", fi, atom, len(LONGEST) <= nmax, "a length cut-off must not reject valid addresses: %r has %d characters and would be rejected by '%s'" % (LONGEST, len(LONGEST), txt) if len(LONGEST) > nmax else "length cut-off %d admits the longest textual address (45 characters)" % nmax)
-            else:
-                raise AnalysisError("C43.ip: early rejection '%s' in is_valid_ip is not a recognised kind (empty / NUL / length)" % txt)
+        # decided by evaluation, not by shape: fold the test for representative inputs (any De Morgan / nesting / named form)
+        from ..x_resolve import expand as _expand
+        test = _expand(fi, st.test)
+        extra = set(q.names_in(test)) - {ip, "len"}
+        if extra:
+            raise AnalysisError("C43.ip: early rejection '%s' in is_valid_ip depends on %s; not a recognised kind" % (q.unparse(st.test), ", ".join(sorted(extra))))
+        VALID = ["1.2.3.4", "255.255.255.255", "::", "::1", "fe80::1", "2001:db8:85a3::8a2e:370:7334", LONGEST]
+        verdicts = {}
+        try:
+            for sample in VALID + ["", "\x00", "1.2.3.4\x00"]:
+                verdicts[sample] = bool(q.fold(test, {ip: sample}))
+        except q.NotFoldable as ex:
+            raise AnalysisError("C43.ip: early rejection '%s' in is_valid_ip cannot be evaluated (%s)" % (q.unparse(st.test), ex))
+        bad = [v_ for v_ in VALID if verdicts[v_]]
+        ck.ob("C43.ip", fi, st.test, not bad, "an early 'return False' turns away only strings that cannot be addresses: evaluated on %d valid IPv4/IPv6 spellings (up to the 45-character form)%s" % (len(VALID), "" if not bad else " — rejects the valid address %r" % bad[0]))
     # early rejections return False
     for nd in fi.cfg.stmt_nodes(lambda nd: nd.kind == "stmt" and isinstance(nd.ast, ast.Return)):
         F = facts[nd.id]
